@@ -43,8 +43,18 @@ func (x *Mutex) Lock() {
 		core.NoteLock()
 		return
 	}
+	x.hook()
 	core.YieldLock(core.KLock, &x.m)
 	x.mu.Lock()
+}
+
+// (simulated threads run one at a time; their hand-off is invisible to the race detector)
+//
+//go:norace
+func (x *Mutex) hook() {
+	if x.m.Rel == nil {
+		x.m.Rel = func(bool) { x.mu.Unlock() }
+	}
 }
 
 func (x *Mutex) Unlock() {
@@ -53,6 +63,7 @@ func (x *Mutex) Unlock() {
 }
 
 func (x *Mutex) TryLock() bool {
+	x.hook()
 	core.YieldLock(core.KTryLock, &x.m)
 	if !core.Active() {
 		return x.mu.TryLock()
@@ -79,8 +90,22 @@ func (x *RWMutex) Lock() {
 		core.NoteLock()
 		return
 	}
+	x.hook()
 	core.YieldLock(core.KLock, &x.m)
 	x.mu.Lock()
+}
+
+//go:norace
+func (x *RWMutex) hook() {
+	if x.m.Rel == nil {
+		x.m.Rel = func(write bool) {
+			if write {
+				x.mu.Unlock()
+			} else {
+				x.mu.RUnlock()
+			}
+		}
+	}
 }
 
 func (x *RWMutex) Unlock() {
@@ -96,6 +121,7 @@ func (x *RWMutex) RLock() {
 		core.NoteLock()
 		return
 	}
+	x.hook()
 	core.YieldLock(core.KRLock, &x.m)
 	x.mu.RLock()
 }
@@ -106,6 +132,7 @@ func (x *RWMutex) RUnlock() {
 }
 
 func (x *RWMutex) TryLock() bool {
+	x.hook()
 	core.YieldLock(core.KTryLock, &x.m)
 	if !core.Active() {
 		return x.mu.TryLock()
@@ -120,6 +147,7 @@ func (x *RWMutex) TryLock() bool {
 }
 
 func (x *RWMutex) TryRLock() bool {
+	x.hook()
 	core.YieldLock(core.KTryRLock, &x.m)
 	if !core.Active() {
 		return x.mu.TryRLock()
